@@ -70,16 +70,17 @@ func collectComparators(p *Prog) []cmpFn {
 }
 
 type cmpEval struct {
-	c    cmpFn
-	info *types.Info
-	keys []string // normalised key expressions
-	err  string
+	c      cmpFn
+	info   *types.Info
+	keys   []string // normalised key expressions
+	err    string
+	prefix string // key namespace of an inlined predicate
 }
 
 // keyOf normalises an expression over exactly one of the index variables: returns key
 // string and which side (0=i, 1=j), or "", -1.
 func (e *cmpEval) keyOf(x ast.Expr) (string, int) {
-	x = e.expand(x)
+	x = e.expandDeep(e.expand(x), 3)
 	side := -1
 	ok := true
 	ast.Inspect(x, func(n ast.Node) bool {
@@ -143,6 +144,43 @@ func (e *cmpEval) expand(x ast.Expr) ast.Expr {
 	return x
 }
 
+// expandDeep substitutes single-definition locals of the comparator body anywhere inside x
+// (`iRng := xs[i].Range(); … iRng.Filename` reads `xs[i].Range().Filename`).
+func (e *cmpEval) expandDeep(x ast.Expr, depth int) ast.Expr {
+	if depth <= 0 || e.c.fn == nil || e.c.body == nil {
+		return x
+	}
+	for round := 0; round < 4; round++ {
+		var target types.Object
+		var def ast.Expr
+		ast.Inspect(x, func(n ast.Node) bool {
+			if target != nil {
+				return false
+			}
+			id, ok := n.(*ast.Ident)
+			if !ok {
+				return true
+			}
+			o := e.info.ObjectOf(id)
+			if o == nil || o == e.c.i || o == e.c.j || o.Pos() < e.c.body.Pos() || o.Pos() > e.c.body.End() {
+				return true
+			}
+			if _, isVar := o.(*types.Var); !isVar {
+				return true
+			}
+			if d := e.c.fn.SingleDef(o); d != nil {
+				target, def = o, d
+			}
+			return true
+		})
+		if target == nil {
+			return x
+		}
+		x = substExpr(x, target, def, e.info)
+	}
+	return x
+}
+
 func (e *cmpEval) keyIndex(k string) int {
 	for i, s := range e.keys {
 		if s == k {
@@ -175,6 +213,12 @@ func (e *cmpEval) evalBool(x ast.Expr, env *cmpEnv) (bool, bool) {
 			r, ok := e.evalBool(v.X, env)
 			return !r, ok
 		}
+	case *ast.CallExpr:
+		// a module predicate over the two elements (`xs[i].sortsBefore(xs[j])`,
+		// `less(xs[i], xs[j])`): evaluated as a comparator of its own two parameters
+		if r, ok, handled := e.evalPredicateCall(v, env); handled {
+			return r, ok
+		}
 	case *ast.BinaryExpr:
 		switch v.Op {
 		case token.LAND:
@@ -202,7 +246,7 @@ func (e *cmpEval) evalBool(x ast.Expr, env *cmpEnv) (bool, bool) {
 				e.err = "comparison outside the fragment key(i) op key(j): " + exprStr(v)
 				return false, false
 			}
-			k := e.keyIndex(kl)
+			k := e.keyIndex(e.prefix + kl)
 			if k >= len(env.rank) {
 				// key discovered late: signal re-run
 				e.err = "rerun"
@@ -267,6 +311,45 @@ func (e *cmpEval) evalStmts(list []ast.Stmt, env *cmpEnv) (bool, bool, bool) {
 				case *ast.IfStmt:
 					r, ret, ok = e.evalStmts([]ast.Stmt{el}, env)
 				}
+				if !ok || ret {
+					return r, ret, ok
+				}
+			}
+		case *ast.SwitchStmt:
+			if st.Tag != nil || st.Init != nil {
+				e.err = "switch with a tag inside comparator"
+				return false, false, false
+			}
+			var deflt *ast.CaseClause
+			taken := false
+			for _, cs := range st.Body.List {
+				cc := cs.(*ast.CaseClause)
+				if cc.List == nil {
+					deflt = cc
+					continue
+				}
+				hit := false
+				for _, ce := range cc.List {
+					c, ok := e.evalBool(ce, env)
+					if !ok {
+						return false, false, false
+					}
+					if c {
+						hit = true
+						break
+					}
+				}
+				if hit {
+					taken = true
+					r, ret, ok := e.evalStmts(cc.Body, env)
+					if !ok || ret {
+						return r, ret, ok
+					}
+					break
+				}
+			}
+			if !taken && deflt != nil {
+				r, ret, ok := e.evalStmts(deflt.Body, env)
 				if !ok || ret {
 					return r, ret, ok
 				}
@@ -413,4 +496,90 @@ func checkStrictWeak(e *cmpEval, wos [][]int) (Status, string) {
 		}
 	}
 	return Undecided, "key discovery did not converge"
+}
+
+// sideOf: which of the two index variables x mentions (0 = i, 1 = j, -1 = none or both).
+func (e *cmpEval) sideOf(x ast.Expr) int {
+	side, ok := -1, true
+	ast.Inspect(e.expandDeep(e.expand(x), 3), func(n ast.Node) bool {
+		if id, isId := n.(*ast.Ident); isId {
+			switch e.info.ObjectOf(id) {
+			case e.c.i:
+				if side == 1 {
+					ok = false
+				}
+				side = 0
+			case e.c.j:
+				if side == 0 {
+					ok = false
+				}
+				side = 1
+			}
+		}
+		return true
+	})
+	if !ok {
+		return -1
+	}
+	return side
+}
+
+// evalPredicateCall: call of a module function/method with exactly two element operands
+// (receiver + one argument, or two arguments), one per side.
+func (e *cmpEval) evalPredicateCall(call *ast.CallExpr, env *cmpEnv) (res, ok, handled bool) {
+	if e.c.fn == nil {
+		return false, false, false
+	}
+	f := calleeOf(e.info, call)
+	if f == nil {
+		return false, false, false
+	}
+	tgt := e.c.fn.Prog.FuncOf[f]
+	if tgt == nil || tgt.Body == nil || tgt.Decl == nil {
+		return false, false, false
+	}
+	var operands []ast.Expr
+	var formals []types.Object
+	ti := tgt.Info()
+	if tgt.Decl.Recv != nil && len(tgt.Decl.Recv.List) == 1 && len(tgt.Decl.Recv.List[0].Names) == 1 {
+		sel, isSel := ast.Unparen(call.Fun).(*ast.SelectorExpr)
+		if !isSel {
+			return false, false, false
+		}
+		operands = append(operands, sel.X)
+		formals = append(formals, ti.ObjectOf(tgt.Decl.Recv.List[0].Names[0]))
+	}
+	for _, fl := range tgt.Decl.Type.Params.List {
+		for _, nm := range fl.Names {
+			formals = append(formals, ti.ObjectOf(nm))
+		}
+	}
+	operands = append(operands, call.Args...)
+	if len(operands) != 2 || len(formals) != 2 {
+		return false, false, false
+	}
+	s0, s1 := e.sideOf(operands[0]), e.sideOf(operands[1])
+	if s0 < 0 || s1 < 0 || s0 == s1 {
+		return false, false, false
+	}
+	// the two operands must be the same key of their elements (xs[i] and xs[j])
+	k0, _ := e.keyOf(operands[0])
+	k1, _ := e.keyOf(operands[1])
+	if k0 == "" || k0 != k1 {
+		return false, false, false
+	}
+	sub := &cmpEval{c: cmpFn{name: tgt.Name, pos: tgt.Decl, body: tgt.Body, i: formals[0], j: formals[1], fn: tgt}, info: ti, keys: e.keys, prefix: e.prefix + fname(f) + ":" + k0 + ":"}
+	el := [2]int{env.a, env.b}
+	subEnv := &cmpEnv{rank: env.rank, a: el[s0], b: el[s1]}
+	r, ret, okk := sub.evalStmts(tgt.Body.List, subEnv)
+	e.keys = sub.keys
+	if !okk {
+		e.err = sub.err
+		return false, false, true
+	}
+	if !ret {
+		e.err = "predicate " + fname(f) + " may fall off the end"
+		return false, false, true
+	}
+	return r, true, true
 }
